@@ -328,6 +328,56 @@ func runC19(c *fw.Ctx) {
 		step("Add.Sort", func() at.List { return l.Add(3, 1, 2).Sort() })
 		step("ForEachAsync", func() at.List { return l.ForEachAsync(func(int, any) {}) })
 		step("Clear.ForEach", func() at.List { return l.Clear().ForEach(func(int, any) {}) })
+		// a long derived list shrunk step by step: every single return value is judged (capacity-dependent paths)
+		{
+			big := []int{40, 70, 130, 260}[r.Intn(4)]
+			bv := make([]any, big)
+			for j := range bv {
+				bv[j] = j
+			}
+			bfx := listFixture(depth, bv...)
+			bl := bfx.outer.(at.List)
+			bstep := func(name string, f func() at.List) bool {
+				in := func() string {
+					return fmt.Sprintf("%s grown to %d elements, now %d: %s", bfx.name, big, bl.Count(), name)
+				}
+				ok := true
+				guard(c, in, func() {
+					var res at.List
+					if p, _ := drive.Protect(func() { res = f() }); p {
+						return
+					}
+					c.Count("method_calls")
+					before := c.Violations()
+					c19Judge(c, bfx, name, res, in)
+					ok = c.Violations() == before
+				})
+				return ok
+			}
+			c.Distinct(fmt.Sprintf("long derived list %d depth %d", big, depth))
+			for bl.Count() > 0 {
+				n := bl.Count()
+				var ok bool
+				switch r.Intn(5) {
+				case 0:
+					ok = bstep("Pop", func() at.List { return bl.Pop() })
+				case 1:
+					ok = bstep("Delete", func() at.List { return bl.Delete(r.Intn(n)) })
+				case 2:
+					k := r.Range(1, minInt(n, 20))
+					idx := append([]int{}, r.Perm(n)[:k]...)
+					ok = bstep("Delete", func() at.List { return bl.Delete(idx...) })
+				case 3:
+					ok = bstep("UnsetTF", func() at.List { return bl.UnsetTF("#0") })
+				default:
+					ok = bstep("Pop.Reverse", func() at.List { return bl.Pop().Reverse() })
+				}
+				if !ok {
+					break
+				}
+			}
+			bstep("Add(after emptying)", func() at.List { return bl.Add(1, 2, 3) })
+		}
 		ofx := objectFixture(depth, "k", 1)
 		o := ofx.outer.(at.Object)
 		ostep := func(name string, f func() at.Object) {
@@ -448,6 +498,34 @@ func runC19(c *fw.Ctx) {
 			same("NewListOf", at.NewListOf(fx.outer, 2).Get(1))
 			same("NewListFrom", at.NewListFrom([]any{fx.outer}).Get(0))
 			same("NewObjectFrom", at.NewObjectFrom(map[string]any{"k": fx.outer}).Get("k"))
+			// tree-form writes that descend THROUGH the stored derived value reuse it (it is a container of the right
+			// kind): it must stay where it is, stay the identical outer value, and receive the write itself
+			if storedIsList {
+				dl := fx.outer.(at.List)
+				before := dl.Count()
+				holderL.SetTF("#1#0", "written-through")
+				same("List.Get after SetTF through it", holderL.Get(1))
+				holderO.SetTF(fmt.Sprintf(".d#%d", dl.Count()+1), "padded-through")
+				same("Object.Get after SetTF through it", holderO.Get("d"))
+				if dl.Count() <= before || dl.Get(0) != "written-through" {
+					c.Violate("write-through-derived-value-lost", in(), "the derived list itself receives a tree-form write that passes through it", dl.String())
+				}
+				holderL.UnsetTF("#1#0")
+				same("List.Get after UnsetTF through it", holderL.Get(1))
+			} else {
+				do := fx.outer.(at.Object)
+				holderL.SetTF("#1.written", 7)
+				same("List.Get after SetTF through it", holderL.Get(1))
+				holderO.SetTF(".d.deeper.x", 8)
+				same("Object.Get after SetTF through it", holderO.Get("d"))
+				nest.SetTF(".deep#0.x.viaNest", 9)
+				same("nested GetTF after SetTF through it", nest.GetTF(".deep#0.x"))
+				if !do.KeyExists("written") || !do.KeyExists("deeper") || !do.KeyExists("viaNest") {
+					c.Violate("write-through-derived-value-lost", in(), "the derived object itself receives tree-form writes that pass through it", do.String())
+				}
+				holderL.UnsetTF("#1.written")
+				same("List.Get after UnsetTF through it", holderL.Get(1))
+			}
 			// reversing / moving the holder keeps the identity
 			same("after Reverse", holderL.Reverse().Get(1))
 			same("SubList", holderL.SubList(0, 0).Get(1))
